@@ -23,42 +23,43 @@ ASSUMPTIONS = ["streams are MemoryReader / DynamicMemoryWriter", "allocations ab
 Z3_SCRIPT = r'''
 import json, sys
 from z3 import *
+TMO = int(sys.argv[1])
 out = []
 def solve(bits, extra, n=3):
-    s = Solver()
+    s = Solver(); s.set("timeout", TMO)
     w = BitVec("w", 32); h = BitVec("h", 32); px = BitVec("px", 64)
-    w64 = SignExt(32, w)
+    w64 = SignExt(32, w)                                  # int32_t -> size_t
     ah = If(h < 0, -h, h)
-    rowb = UDiv(w64 * BitVecVal(bits, 64) + 7, BitVecVal(8, 64))
-    pitch = (rowb + 3) & BitVecVal(0xFFFFFFFFFFFFFFFC, 64)
-    s.add(pitch * SignExt(32, ah) == px, ULT(px, 4000))
+    rowb = LShR(w64 * BitVecVal(bits, 64) + 7, 3)          # CalcPixelByteWidth
+    pitch = (rowb + 3) & BitVecVal(0xFFFFFFFFFFFFFFFC, 64) # CalculatePitch
+    s.add(pitch * SignExt(32, ah) == px, ULT(px, 4000))    # the reader's cross-check, modulo 2^64
     s.add(*extra(w, h, px))
     for _ in range(n):
         if s.check() != sat: break
         m = s.model()
-        W, H, P = m[w].as_signed_long(), m[h].as_signed_long(), m[px].as_long()
-        out.append([bits, W, H, P])
+        out.append([bits, m[w].as_signed_long(), m[h].as_signed_long(), m[px].as_long()])
         s.add(Or(w != m[w], h != m[h]))
 for bits in (1, 4, 8):
-    solve(bits, lambda w, h, px: [w < 0, h != 0])
-    solve(bits, lambda w, h, px: [w < 0, h != 0, px != 0])
-    solve(bits, lambda w, h, px: [w < -100000, h != 0])
-    solve(bits, lambda w, h, px: [w < 0, h < 0, h != -2147483648])
+    solve(bits, lambda w, h, px: [w < 0, h > 0, h < 64])
+    solve(bits, lambda w, h, px: [w < 0, h < 0, h > -64])
+    solve(bits, lambda w, h, px: [w < -100000, h > 0, h < 4096], 2)
     solve(bits, lambda w, h, px: [h == -2147483648], 2)
-    solve(bits, lambda w, h, px: [h == -2147483648, w > 0], 2)
+    solve(bits, lambda w, h, px: [h == -2147483648, w > 0], 1)
+    solve(bits, lambda w, h, px: [w < 0, h != 0, px != 0, h > -4096, h < 4096], 1)
 print(json.dumps(out))
 '''
-# found by the script above (kept so that the check does not depend on z3 being installed)
-Z3_FALLBACK = [[1, -1, 5, 0], [1, -7, 1, 0], [4, -1, 3, 0], [8, -1, 8, 0], [8, -1, 16, 0], [8, -1, -8, 0],
+# found by the script above (kept so that the check does not depend on z3 being installed or fast)
+Z3_FALLBACK = [[1, -1, 5, 0], [1, -7, 1, 0], [1, -4, 5, 0], [1, -6, 48, 0], [1, -24, INT_MIN, 0], [4, -1, 3, 0], [4, -6, 56, 0], [4, -7, 16, 0],
+               [4, -7, INT_MIN, 0], [8, -1, 8, 0], [8, -1, 16, 0], [8, -1, -8, 0], [8, -2, 8, 0], [8, -3, 40, 0], [8, -3, 56, 0], [8, -2, INT_MIN, 0],
                [8, -2147483648, 0, 0], [1, 0, INT_MIN, 0], [8, 0, INT_MIN, 0], [8, 8, INT_MIN, 0], [8, 4, INT_MIN, 0], [1, 64, INT_MIN, 0]]
 
-def z3_headers():
+def z3_headers(thorough=False):
     try:
-        r = subprocess.run(["python3-vt", "-c", Z3_SCRIPT], capture_output=True, text=True, timeout=120)
+        r = subprocess.run(["python3-vt", "-c", Z3_SCRIPT, "4000" if thorough else "700"], capture_output=True, text=True, timeout=300 if thorough else 40)
         got = json.loads(r.stdout) if r.returncode == 0 else []
     except Exception:
         got = []
-    seen = [];
+    seen = []
     for x in got + Z3_FALLBACK:
         if x not in seen: seen.append(x)
     return seen
@@ -150,7 +151,7 @@ def cases(tier, rng):
         yield Case(f"!bmp.use {hexs(raw_bmp(bits, w, h, pitch(bits, w) * abs(h), rng))}", check=check_use, tag="coordinated-geometry")
         yield Case(f"!bmp.use {hexs(raw_bmp(bits, w, h, pitch(bits, w) * abs(h), rng, used=1))}", check=check_use, tag="coordinated-geometry")
     # coordinated: wrap-around solutions
-    for bits, w, h, px in z3_headers():
+    for bits, w, h, px in z3_headers(thorough):
         g = raw_bmp(bits, w, h, px, rng)
         yield Case(f"!bmp.use {hexs(g)}", check=check_use, tag="solver-wrap")
         yield Case(f"!ts.use {hexs(g)}", check=check_use, tag="solver-wrap-as-tileset")
